@@ -6,18 +6,18 @@ rows = []
 for d in sorted(glob.glob(ROOT + '/seeded/C*')):
     m = json.load(open(d + '/meta.json'))
     name = os.path.basename(d)
-    rnd = {'b': 2, 'c': 3}.get(name[3], 1)
+    rnd = {'b': 2, 'c': 3, 'd': 4}.get(name[3], 1)
     note = re.sub(r'^round \d; ', '', m['evaluation_note']).replace('|', '/')
     rows.append((name, rnd, m['breaks_property'], ', '.join(m['detected_by']), 'yes' if m['detected_before_strengthening'] else 'no', note))
 out = []
 out.append("### 9.3 Independent seeded changes (sub-agents) and what they taught\n")
-out.append("Three rounds of twenty changes each were written by fresh sub-agents, one agent per property, each seeing only the")
-out.append("text of its property and a scratch worktree of `/repo` (never `/verif`); rounds 2 and 3 were told what the earlier")
+out.append("Four rounds of twenty changes each were written by fresh sub-agents, one agent per property, each seeing only the")
+out.append("text of its property and a scratch worktree of `/repo` (never `/verif`); rounds 2 to 4 were told what the earlier")
 out.append("rounds had done for that property and asked for a different mechanism.  Every change compiles, leaves the 157")
 out.append("stable tests passing, and comes with a demonstration that fails with it and passes without")
 out.append("(`seeded/<name>/{patch.diff, demo.sh, *.bn, meta.json}`).  Each was applied to `/repo` (`tools/seedeval.sh`: `git")
 out.append("apply`, the suite, the demo, the quick check, `git apply -R`), never committed there.\n")
-for r in (1, 2, 3):
+for r in (1, 2, 3, 4):
     rr = [x for x in rows if x[1] == r]
     own = sum(1 for x in rr if x[4] == 'yes')
     out.append(f"* round {r}: {own} of {len(rr)} were reported by the property's own check as it stood when the change was written.")
@@ -39,7 +39,12 @@ out.append("graph of two containers x two slots; repeated references in every ob
 out.append("several start states and mid-history listings in the heap searches; canonically equivalent but distinct names in")
 out.append("key pools and renaming schemes; compact and one-line layouts; a statement-level token alphabet, extension of dead")
 out.append("leaves (identifier, repeats of the dead token, every symbol); both names of a built-in; same-process repetition,")
-out.append("repetition sessions and print-then-fail lines; lists of extremes; names that are wrong in two ways at once.\n")
+out.append("repetition sessions and print-then-fail lines; lists of extremes; names that are wrong in two ways at once;")
+out.append("(round 4) whole rows and columns of the operator matrix in one run; built-in names as parameter names (the one")
+out.append("binding the parser allows them); CRLF line ends; names and receiver chains of every length in three alphabets in")
+out.append("diagnostics; indexes one rounding error away from a whole number; object->array->object literal sites; stdin")
+out.append("delivery as a schedule for both input names; exact container text (calibrated) with empty strings at every position;")
+out.append("loops without a condition as wrappers.\n")
 out.append("### 9.4 Vetted single-site mutants\n")
 ms = json.load(open(ROOT + '/mutants/mutants.json'))
 live = [m for m in ms if m.get('passes_existing_tests') and not m.get('equivalent')]
